@@ -37,6 +37,8 @@ def make(ndim, nvars, internal, pattern, strcoord):
             arr[mask] = np.nan
         if pattern == "inf" and v == nvars - 1:
             arr[npr.rand(*vshape) < 0.2] = np.inf
+        if pattern == "inf-only":
+            arr = np.where(np.isnan(arr), np.inf if v % 2 else -np.inf, arr)     # no NaN anywhere: the bad values are all infinite
         data_vars[f"v{v}"] = (vdims, arr)
     if internal:
         coords["time"] = [0, 1, 2]
@@ -58,12 +60,12 @@ def oracle_missing(ds, dims, setting, method):
     return True
 
 
-def check(ndim, nvars, internal, pattern, strcoord, method):
+def check(ndim, nvars, internal, pattern, strcoord, method, progbar=False):
     ds, dims = make(ndim, nvars, internal, pattern, strcoord)
     # the documented spellings: a single name as a string, or a collection of names
     ignore = ("time" if ndim % 2 else {"time"}) if internal else None
     with quiet():
-        fn_args, cases = find_missing_cases(ds, ignore_dims=ignore, method=method)
+        fn_args, cases = find_missing_cases(ds, ignore_dims=ignore, method=method, show_progbar=progbar)
     probs = []
     if tuple(fn_args) != tuple(d for d in ds.dims if d != "time"):
         probs.append(f"fn_args {fn_args} are not the non-ignored dimensions {tuple(ds.dims)}")
@@ -105,7 +107,7 @@ def loop_check():
 
 
 tried = 0
-for ndim, nvars, internal, pattern, strcoord, method in itertools.product((1, 2, 3, 4), (1, 2, 3), (False, True), ("whole", "per-variable", "partial-cell", "inf"),
+for ndim, nvars, internal, pattern, strcoord, method in itertools.product((1, 2, 3, 4), (1, 2, 3), (False, True), ("whole", "per-variable", "partial-cell", "inf", "inf-only"),
                                                                        (False, True), ("isnull", "isfinite")):
     if pattern == "partial-cell" and not internal:
         continue
@@ -113,11 +115,11 @@ for ndim, nvars, internal, pattern, strcoord, method in itertools.product((1, 2,
         continue                                            # thin out the larger shapes
     tried += 1
     try:
-        pr = check(ndim, nvars, internal, pattern, strcoord, method)
+        pr = check(ndim, nvars, internal, pattern, strcoord, method, progbar=(tried % 3 == 0))
     except Exception as e:
         pr = [f"{type(e).__name__}: {e}"]
     if pr:
-        finish(True, input=dict(ndim=ndim, nvars=nvars, internal_dim=internal, null_pattern=pattern, string_coordinate=strcoord, method=method), observed=pr, tried=tried)
+        finish(True, input=dict(ndim=ndim, nvars=nvars, internal_dim=internal, null_pattern=pattern, string_coordinate=strcoord, method=method, show_progbar=(tried % 3 == 0)), observed=pr, tried=tried)
 pr = loop_check()
 if pr:
     finish(True, input=dict(loop="find -> harvest -> find"), observed=pr, tried=tried)
